@@ -29,6 +29,16 @@ def run(ctx):
     if 'wrapping-request' in known:
         q = Query('wrap/known', L, hs, ['OP=0', 'D0=4', 'D1=1', 'INIT1=1'], unwind=6, timeout=400, backend='cadical', expect='fail', known='key=wrapping-request ' + known['wrapping-request'], desc='re-confirm listed finding')
         qs.append(q)
+    # byte level: the real Serial backend below the same validation code, small symbolic requests, symbolic contents
+    Lb = C.lift(ctx, 'C02b', os.path.join(H, 'wrap_bytes.cpp'), ['b_setup', 'b_copy_from_ptr', 'b_copy_to_ptr', 'b_copy_from_mem', 'b_slice_write'], ub=False, libocca=True,
+                models=[os.path.join(C.VERIF, 'harness', 'C01', 'models_c01.c')])
+    hb = os.path.join(H, 'h_bytes.c')
+    BOPS = {0: 'copyFrom(ptr)', 1: 'copyTo(ptr)', 2: 'copyFrom(memory)', 3: 'slice, then copyFrom(ptr) through the slice'}
+    for op in range(3):      # (op 3, slice-then-write, does not finish: the slice object is allocated under symbolic offsets)
+        for (d0, d1) in ([(1, 1), (4, 2)] if not thorough else [(1, 1), (2, 1), (4, 2), (2, 4)]):
+            qb = Query('bytes-op%d-d%d-%d' % (op, d0, d1), Lb, hb, ['OP=%d' % op, 'D0=%d' % d0, 'D1=%d' % d1], unwind=14, timeout=1800 if thorough else 900, backend='cadical',
+                       desc='%s on the real Serial backend: two 12-byte stores with symbolic contents, memory objects at symbolic offsets/sizes, count/offsets in -2..14, element sizes %d/%d; every byte vs the model' % (BOPS[op], d0, d1))
+            qs.append(qb)
     for q in qs:
         q.no_ptr_overflow = True
         q.witness_vectors = [dict(base0=4, size0=16, base1=0, size1=16, init1=1, count=1, off=1, off2=1), dict(base0=0, size0=8, base1=0, size1=8, init1=1, count=-1, off=0, off2=0), dict(base0=0, size0=8, base1=0, size1=8, init1=1, count=0, off=0, off2=0)]
